@@ -204,6 +204,28 @@ func init() {
 				}
 				r.Extra["L_completed"] = L
 			}
+			// part-count dimension: structured locations of 6..12 (thorough 20) parts x every single rotation in [-L,L] and pairs (a, -a), (a, 1)
+			{
+				maxParts := 12
+				if r.Tier == "thorough" {
+					maxParts = 20
+				}
+				for parts := 6; parts <= maxParts && complete; parts++ {
+					L, locs := manyPartLocs(parts)
+					r.States.Add(int64(len(locs)))
+					done := r.ParallelFor(len(locs)*(2*L+1), func(idx int) {
+						loc, n := locs[idx/(2*L+1)], idx%(2*L+1)-L
+						enc := []string{locdom.Encode(loc)}
+						eval(c04Case{L: L, Locs: enc, Ns: []int{n}}, n%L != 0)
+						eval(c04Case{L: L, Locs: enc, Ns: []int{n, -n}}, n%L != 0)
+						eval(c04Case{L: L, Locs: enc, Ns: []int{n, 1}}, true)
+					})
+					complete = complete && done
+					if done {
+						r.Extra["many_parts_completed"] = parts
+					}
+				}
+			}
 			r.Assumptions = []string{
 				"clean domain; ambiguous spans that cross an intermediate or final origin are outside the quantifier",
 				"a contiguous full-length range may stay 1..L; gap 0 and gap L are the same place on a circle",
